@@ -1,0 +1,30 @@
+//go:build verif
+
+package keeper
+
+// Contracts for the deductive checker in /verif (comment-only; compiled only with -tags verif).
+// C19, iteration helpers: AllEpochInfos enumerates the epoch store for ExportGenesis; verified against the KV-iterator model of
+// /verif/specs/c19it instead of being assumed.
+
+/*@
+alias EpochInfo github.com/haqq-network/haqq/x/epochs/types.EpochInfo
+// protobuf decoding of a stored epoch: a function of the bytes (codec assumed)
+uf ep_decode(b Bytes) EpochInfo
+func (github.com/cosmos/cosmos-sdk/codec.BinaryCodec).MustUnmarshal
+    params cdc, bz, ptr
+    requires epoch: typeis(ptr, *EpochInfo)
+    modifies *cast(ptr, *EpochInfo)
+    ensures *cast(ptr, *EpochInfo) == ep_decode(bz)
+
+func (Keeper).IterateEpochInfo
+    inline
+
+// the result is the decoded enumeration of the epoch store, entry by entry and in store order: nothing dropped, nothing added
+func (Keeper).AllEpochInfos
+    let it = ret(KVStorePrefixIterator, 1, 0)
+    let seq = iter_seq(it)
+    loop 1 invariant pos: 0 <= iter_pos[it] && iter_pos[it] <= kv_len(seq) && len(epochs) == iter_pos[it]
+    loop 1 invariant elems: forall i int :: 0 <= i && i < len(epochs) ==> epochs[i] == ep_decode(kv_val(seq, i))
+    ensures all: len(result) == kv_len(seq) && (forall i int :: 0 <= i && i < len(result) ==> result[i] == ep_decode(kv_val(seq, i)))
+    allow frame
+@*/
